@@ -2,7 +2,7 @@
 (***************************************************************************)
 (* Weighted combinations of selectors (ec-core weighted/*, dyn_weighted),  *)
 (* property C13.  A statically typed combination is a binary tree          *)
-(*     [t |-> "leaf", w |-> weight, m |-> member id]                       *)
+(*     [t |-> "leaf", w |-> weight, m |-> member id, f |-> member fails]   *)
 (*     [t |-> "pair", a |-> tree, b |-> tree]                              *)
 (* whose weight is the sum of its leaves; the dynamic form is a list of    *)
 (* (member, weight).  A selection walks from the root: at a pair with      *)
@@ -12,7 +12,8 @@
 (***************************************************************************)
 EXTENDS Integers, Sequences, FiniteSets
 
-Leaf(w, m) == [t |-> "leaf", w |-> w, m |-> m]
+LeafF(w, m, f) == [t |-> "leaf", w |-> w, m |-> m, f |-> f]
+Leaf(w, m) == LeafF(w, m, FALSE)
 Pair(a, b) == [t |-> "pair", a |-> a, b |-> b]
 
 RECURSIVE Weight(_)
@@ -39,12 +40,16 @@ ReachProb(t, p) ==
 
 ZeroWeight == [k |-> "zero_weight"]
 Chosen(p, m) == [k |-> "chosen", path |-> p, m |-> m]
+MemberError(p, m) == [k |-> "member_error", path |-> p, m |-> m]
 
 (* outcomes of one selection: which leaf is delegated to (exactly one), or  *)
-(* the zero-weight error.  A leaf of weight zero is never delegated to.     *)
+(* the zero-weight error.  A leaf of weight zero is never delegated to.  If *)
+(* the member delegated to fails, its error is the result: the selection is *)
+(* NOT re-routed to another member ("delegates to exactly one member").     *)
 SelectOutcomes(t) ==
   IF Weight(t) = 0 THEN {ZeroWeight}
-  ELSE {Chosen(p, LeafAt(t, p).m) : p \in {q \in Paths(t) : ReachProb(t, q).n > 0}}
+  ELSE {IF LeafAt(t, p).f THEN MemberError(p, LeafAt(t, p).m) ELSE Chosen(p, LeafAt(t, p).m) :
+          p \in {q \in Paths(t) : ReachProb(t, q).n > 0}}
 
 (* dynamic list: ws = sequence of weights; member j with probability w_j / sum *)
 RECURSIVE SumSeq(_)
